@@ -3,27 +3,565 @@
 package main
 
 import (
+	"bytes"
+	"crypto/sha256"
+	"encoding/hex"
 	"fmt"
+	"math/rand"
+	"strconv"
+	"strings"
 
+	"github.com/tonkeeper/tongo/boc"
 	"verifharness/h"
 )
 
 func init() {
-	h.Register(&h.Prop{ID: "C02", Gen: genC02, Exec: withCells(map[string]h.ExecFn{})})
+	h.Register(&h.Prop{ID: "C02", Gen: genC02, Exec: withCells(map[string]h.ExecFn{
+		"cell.all":     execCellAll,
+		"spec.levels":  execCellLevels, // the model side answers with the Lean SPEC evaluated on the unfolded tree
+		"lmask":        execLmask,
+		"go.spec":      goSpec,
+		"go.cached":    goCached,
+		"go.reads":     goReads,
+		"go.readbits":  goReadBits,
+		"go.obtained":  goObtained,
+		"go.boc":       goBoc,
+		"go.testfiles": func(a []string) string { return "FAIL no-testdata-bocs-found" },
+	})})
+}
+
+func execCellLevels(a []string) string { return cellExec["cell.levels"](a) }
+
+// levelsLine formats hashes/depths/level like cell.levels does.
+func levelsLine(hs [4][]byte, ds [4]int, level int) string {
+	var sb strings.Builder
+	for l := 0; l < 4; l++ {
+		sb.WriteString(h.Hex(hs[l]) + " " + strconv.Itoa(ds[l]) + " ")
+	}
+	sb.WriteString(strconv.Itoa(level))
+	return sb.String()
+}
+
+// cell.all <table> -> "ok <rows> <sha256 of one levels line per row>"; rows that fail contribute "err".
+func execCellAll(a []string) string {
+	t := h.ParseTable(a[0])
+	cs := h.BuildCells(t)
+	cache := boc.VerifNewCache()
+	lines := make([]string, len(t))
+	for i := len(t) - 1; i >= 0; i-- {
+		hs, ds, err := boc.VerifHashLevelsCached(cs[i], cache)
+		if err != nil {
+			lines[i] = "err"
+		} else {
+			lines[i] = levelsLine(hs, ds, cs[i].Level())
+		}
+	}
+	sum := sha256.Sum256([]byte(strings.Join(lines, "\n") + "\n"))
+	return fmt.Sprintf("ok %d %s", len(t), hex.EncodeToString(sum[:]))
+}
+
+// lmask <mask> <level> -> "level hashIndex hashesCount apply significant"
+func execLmask(a []string) string {
+	m, _ := strconv.ParseUint(a[0], 10, 32)
+	l, _ := strconv.Atoi(a[1])
+	lvl, hi, hc, ap, sig := boc.VerifLevelMask(uint32(m), l)
+	s := 0
+	if sig {
+		s = 1
+	}
+	return fmt.Sprintf("%d %d %d %d %d", lvl, hi, hc, ap, s)
+}
+
+// ------------------------------------------------------------------------------------------- direct oracles
+
+// specLines: one levels line per row from the definition (SpecHasher); "" when the row is too deep.
+func specCompare(t []h.Row, cs []*boc.Cell, what string) string {
+	sh := h.NewSpecHasher(t)
+	cache := boc.VerifNewCache()
+	for i := len(t) - 1; i >= 0; i-- {
+		hs, ds, err := boc.VerifHashLevelsCached(cs[i], cache)
+		deep := sh.TooDeep(i)
+		if err != nil {
+			if !deep {
+				return fmt.Sprintf("FAIL unexpected-error %s row=%d", what, i)
+			}
+			continue
+		}
+		if deep {
+			return fmt.Sprintf("FAIL missing-depth-error %s row=%d", what, i)
+		}
+		for l := 0; l < 4; l++ {
+			if !bytes.Equal(hs[l], sh.Hash(i, l)) {
+				return fmt.Sprintf("FAIL hash-differs-from-definition %s row=%d level=%d got=%x want=%x", what, i, l, hs[l], sh.Hash(i, l))
+			}
+			if ds[l] != sh.Depth(i, l) {
+				return fmt.Sprintf("FAIL depth-differs-from-definition %s row=%d level=%d got=%d want=%d", what, i, l, ds[l], sh.Depth(i, l))
+			}
+		}
+		if cs[i].Level() != h.SpecLevel(t[i].Mask) {
+			return fmt.Sprintf("FAIL level-differs-from-definition %s row=%d", what, i)
+		}
+		if i == 0 {
+			hh, err := cs[0].Hash()
+			if err != nil || !bytes.Equal(hh, sh.Hash(0, 3)) {
+				return fmt.Sprintf("FAIL repr-hash-differs-from-definition %s", what)
+			}
+		}
+	}
+	return "ok"
+}
+
+// go.spec <table>: every cell's hashes, depths, level from the real code equal the definition.
+func goSpec(a []string) string {
+	t := h.ParseTable(a[0])
+	return specCompare(t, h.BuildCells(t), "built")
+}
+
+// go.cached <table> <seed>: a caching Hasher (cold and warm, cells visited in random order) agrees with Cell.Hash.
+func goCached(a []string) string {
+	t := h.ParseTable(a[0])
+	cs := h.BuildCells(t)
+	seed, _ := strconv.ParseInt(a[1], 10, 64)
+	rng := rand.New(rand.NewSource(seed))
+	hasher := boc.NewHasher()
+	order := rng.Perm(len(cs))
+	if len(order) > 60 {
+		order = order[:60]
+	}
+	for round := 0; round < 2; round++ {
+		for _, i := range order {
+			fresh, err1 := cs[i].Hash()
+			cached, err2 := hasher.Hash(cs[i])
+			if (err1 == nil) != (err2 == nil) {
+				return fmt.Sprintf("FAIL cached-error-differs row=%d round=%d", i, round)
+			}
+			if err1 != nil {
+				continue
+			}
+			if !bytes.Equal(fresh, cached) {
+				return fmt.Sprintf("FAIL cached-hash-differs row=%d round=%d", i, round)
+			}
+			s1, _ := cs[i].HashString()
+			s2, _ := hasher.HashString(cs[i])
+			h256, _ := cs[i].Hash256()
+			if s1 != s2 || s1 != hex.EncodeToString(fresh) || !bytes.Equal(h256[:], fresh) {
+				return fmt.Sprintf("FAIL hash-forms-differ row=%d", i)
+			}
+		}
+	}
+	return "ok"
+}
+
+// randomReads performs arbitrary read operations on a cell.
+func randomReads(rng *rand.Rand, c *boc.Cell) {
+	for k := rng.Intn(12); k >= 0; k-- {
+		switch rng.Intn(9) {
+		case 0:
+			c.ReadUint(rng.Intn(65))
+		case 1:
+			c.ReadBit()
+		case 2:
+			c.ReadBits(rng.Intn(300))
+		case 3:
+			c.Skip(rng.Intn(40))
+		case 4:
+			c.NextRef()
+		case 5:
+			c.ReadBytes(rng.Intn(40))
+		case 6:
+			c.ReadInt(rng.Intn(65))
+		case 7:
+			c.ReadRemainingBits()
+		case 8:
+			c.ReadBigUint(rng.Intn(260))
+		}
+	}
+}
+
+// go.reads <table> <seed>: the hash does not depend on what has been read from the cells.
+func goReads(a []string) string {
+	t := h.ParseTable(a[0])
+	cs := h.BuildCells(t)
+	seed, _ := strconv.ParseInt(a[1], 10, 64)
+	rng := rand.New(rand.NewSource(seed))
+	before, err0 := cs[0].Hash()
+	for _, c := range cs {
+		if rng.Intn(3) != 0 {
+			randomReads(rng, c)
+		}
+	}
+	after, err1 := cs[0].Hash()
+	if (err0 == nil) != (err1 == nil) || !bytes.Equal(before, after) {
+		return "FAIL hash-changed-by-reads"
+	}
+	hs, _, err2 := boc.VerifHashLevels(cs[0])
+	hs0, _, err3 := boc.VerifHashLevels(h.BuildCells(t)[0])
+	if (err2 == nil) != (err3 == nil) {
+		return "FAIL error-changed-by-reads"
+	}
+	for l := 0; l < 4; l++ {
+		if !bytes.Equal(hs[l], hs0[l]) {
+			return fmt.Sprintf("FAIL level-hash-changed-by-reads level=%d", l)
+		}
+	}
+	return "ok"
+}
+
+// go.readbits <hexdata> <bitlen> <skip> <n>: NewCellWithBits(ReadBits(n)) after skipping `skip` bits hashes like a
+// cell into which the same n bits were written.
+func goReadBits(a []string) string {
+	data := h.MustUnHex(a[0])
+	bl, _ := strconv.Atoi(a[1])
+	skip, _ := strconv.Atoi(a[2])
+	n, _ := strconv.Atoi(a[3])
+	src := boc.VerifNewCell(boc.OrdinaryCell, 0, data, bl, nil)
+	if err := src.Skip(skip); err != nil {
+		return "ok"
+	}
+	bs, err := src.ReadBits(n)
+	if err != nil {
+		return "ok"
+	}
+	got, err := boc.NewCellWithBits(bs).Hash()
+	if err != nil {
+		return "FAIL readbits-hash-error"
+	}
+	w := boc.NewCell()
+	for i := skip; i < skip+n; i++ {
+		if err := w.WriteBit(data[i/8]>>(7-uint(i%8))&1 == 1); err != nil {
+			return "FAIL writebit-error"
+		}
+	}
+	want, _ := w.Hash()
+	// the definition, too
+	row := h.Row{BitLen: n, Data: make([]byte, (n+7)/8)}
+	for i := 0; i < n; i++ {
+		if data[(skip+i)/8]>>(7-uint((skip+i)%8))&1 == 1 {
+			row.Data[i/8] |= 1 << (7 - uint(i%8))
+		}
+	}
+	def := h.NewSpecHasher([]h.Row{row}).Hash(0, 3)
+	if !bytes.Equal(want, def) {
+		return "FAIL written-bits-hash-differs-from-definition"
+	}
+	if !bytes.Equal(got, want) {
+		al := "unaligned-cursor"
+		if skip%8 == 0 {
+			al = "aligned-cursor"
+		}
+		return fmt.Sprintf("FAIL readbits-hash-differs %s n%%8=%d", al, n%8)
+	}
+	return "ok"
+}
+
+// buildByWriting rebuilds an all-ordinary table through the public builder API (NewCell / WriteBit / AddRef).
+func buildByWriting(t []h.Row) ([]*boc.Cell, bool) {
+	cells := make([]*boc.Cell, len(t))
+	for i := len(t) - 1; i >= 0; i-- {
+		r := t[i]
+		if r.Ty != 0 || r.Mask != 0 {
+			return nil, false
+		}
+		c := boc.NewCell()
+		full := r.BitLen / 8
+		if full > 0 {
+			if err := c.WriteBytes(r.Data[:full]); err != nil {
+				return nil, false
+			}
+		}
+		for k := full * 8; k < r.BitLen; k++ {
+			if err := c.WriteBit(r.Data[k/8]>>(7-uint(k%8))&1 == 1); err != nil {
+				return nil, false
+			}
+		}
+		for _, x := range r.Refs {
+			if err := c.AddRef(cells[x]); err != nil {
+				return nil, false
+			}
+		}
+		cells[i] = c
+	}
+	return cells, true
+}
+
+// go.obtained <table>: the hash does not depend on how the cell was obtained: built from raw parts, written through
+// the builder API (ordinary cells), or serialised to a bag of cells and parsed back.
+func goObtained(a []string) string {
+	t := h.ParseTable(a[0])
+	cs := h.BuildCells(t)
+	want, err := cs[0].Hash()
+	if err != nil {
+		return "ok"
+	}
+	if w, ok := buildByWriting(t); ok {
+		got, err := w[0].Hash()
+		if err != nil || !bytes.Equal(got, want) {
+			return "FAIL written-cell-hash-differs"
+		}
+		if r := specCompare(t, w, "written"); r != "ok" {
+			return r
+		}
+	}
+	for _, flags := range [][3]bool{{false, false, false}, {true, true, false}} {
+		ser, err := boc.SerializeBoc(cs[0], flags[0], flags[1], flags[2], 0)
+		if err != nil {
+			return "FAIL serialize-error"
+		}
+		back, err := boc.DeserializeBoc(ser)
+		if err != nil || len(back) != 1 {
+			return "FAIL reparse-error"
+		}
+		got, err := back[0].Hash()
+		if err != nil || !bytes.Equal(got, want) {
+			return "FAIL reparsed-cell-hash-differs"
+		}
+	}
+	return "ok"
+}
+
+// tableOfParsed canonicalises parsed roots into a table and returns the parsed cell of every row.
+func tableOfParsed(roots []*boc.Cell) ([]h.Row, []*boc.Cell) {
+	s := h.Canon(roots)
+	t := h.ParseTable(strings.Fields(s)[0])
+	// map rows back to parsed cells: rebuild the same interning walk
+	cells := make([]*boc.Cell, len(t))
+	rootIdx := strings.Split(strings.Fields(s)[1], ".")
+	var assign func(c *boc.Cell, i int)
+	assign = func(c *boc.Cell, i int) {
+		if cells[i] != nil {
+			return
+		}
+		cells[i] = c
+		for j, ch := range c.Refs() {
+			assign(ch, t[i].Refs[j])
+		}
+	}
+	for k, r := range roots {
+		i, _ := strconv.Atoi(rootIdx[k])
+		assign(r, i)
+	}
+	return t, cells
+}
+
+// go.boc <hex>: every cell of a bag of cells parsed by the real parser hashes (all levels) as the definition says.
+func goBoc(a []string) string {
+	roots, err := boc.DeserializeBoc(h.MustUnHex(a[0]))
+	if err != nil {
+		return "FAIL parse-error"
+	}
+	t, cells := tableOfParsed(roots)
+	if r := specCompare(t, cells, "parsed"); r != "ok" {
+		return r
+	}
+	// a caching hasher over the parsed cells
+	hasher := boc.NewHasher()
+	for i := 0; i < len(cells); i += 1 + len(cells)/50 {
+		f, err1 := cells[i].Hash()
+		c, err2 := hasher.Hash(cells[i])
+		if (err1 == nil) != (err2 == nil) || !bytes.Equal(f, c) {
+			return fmt.Sprintf("FAIL cached-hash-differs row=%d", i)
+		}
+	}
+	return "ok"
+}
+
+// ------------------------------------------------------------------------------------------------ generator
+
+func emitTable(g *h.G, t []h.Row, class string) {
+	ts := h.TableString(t)
+	g.Count(class)
+	g.Count(fmt.Sprintf("cells_%03d", len(t)/10*10))
+	for _, r := range t {
+		g.Count(fmt.Sprintf("ty%d_mask%d", r.Ty, r.Mask))
+	}
+	if len(t) >= 2 || t[0].Ty != 0 {
+		g.NonTrivial(ts)
+	}
+	g.Emit("cell.levels", ts)
+	g.Emit("cell.hash", ts)
+	g.Emit("cell.all", ts)
+	g.Emit("go.spec", ts)
+}
+
+// specCost estimates the number of steps of the (unmemoised, tree-recursive) Lean specification on row 0.
+func specCost(t []h.Row) int {
+	const cap = 1 << 24
+	ch := make([][6]int, len(t)) // hash cost per level
+	cd := make([][6]int, len(t)) // depth cost per level
+	for i := len(t) - 1; i >= 0; i-- {
+		r := t[i]
+		for l := 0; l <= 5; l++ {
+			cl := l
+			if r.Ty == 3 || r.Ty == 4 {
+				cl = l + 1
+			}
+			if cl > 5 {
+				cl = 5
+			}
+			sig := l == 0 || (l <= 3 && (r.Mask>>(uint(l)-1))&1 == 1)
+			switch {
+			case r.Ty == 1 && l < h.SpecLevel(r.Mask):
+				ch[i][l], cd[i][l] = 1, 1
+			case !sig:
+				ch[i][l], cd[i][l] = ch[i][l-1]+1, cd[i][l-1]+1
+			default:
+				a, b := 1, 1
+				if l > 0 && r.Ty != 1 {
+					a += ch[i][l-1]
+				}
+				for _, c := range r.Refs {
+					a += ch[c][cl] + cd[c][cl]
+					b += cd[c][cl]
+				}
+				if a > cap {
+					a = cap
+				}
+				if b > cap {
+					b = cap
+				}
+				ch[i][l], cd[i][l] = a, b
+			}
+		}
+	}
+	total := 0
+	for l := 0; l < 4; l++ {
+		total += ch[0][l] + cd[0][l]
+	}
+	// tooDeep evaluates the depths of every cell of the unfolded tree
+	return total + 8*unfoldedSize(t)
+}
+
+func unfoldedSize(t []h.Row) int {
+	size := make([]int, len(t))
+	for i := len(t) - 1; i >= 0; i-- {
+		size[i] = 1
+		for _, c := range t[i].Refs {
+			size[i] += size[c]
+			if size[i] > 1<<20 {
+				size[i] = 1 << 20
+			}
+		}
+	}
+	return size[0]
 }
 
 func genC02(g *h.G) {
 	genPrim(g, "prim.sha256")
-	n := g.Scale(1500, 30000)
+	// level-mask helpers: the whole 3-bit table and random 32-bit masks
+	for m := 0; m < 8; m++ {
+		for l := 0; l <= 5; l++ {
+			g.Emit("lmask", strconv.Itoa(m), strconv.Itoa(l))
+		}
+	}
+	for i := 0; i < 200; i++ {
+		g.Emit("lmask", strconv.FormatUint(uint64(g.Rng.Uint32())>>uint(g.Rng.Intn(32)), 10), strconv.Itoa(g.Rng.Intn(32)))
+	}
+	// ordinary DAGs
+	n := g.Scale(400, 8000)
 	for i := 0; i < n; i++ {
 		t := g.RandOrdinaryTable(h.DagOpts{MaxCells: g.Pick(1, 3, 8, 40)})
+		emitTable(g, t, "class_ordinary_dag")
 		ts := h.TableString(t)
-		g.Count(fmt.Sprintf("cells_%d", len(t)/10*10))
-		if len(t) >= 2 {
-			g.NonTrivial(ts)
+		if i%4 == 0 {
+			g.Emit("go.cached", ts, strconv.Itoa(g.Rng.Intn(1<<30)))
+			g.Emit("go.reads", ts, strconv.Itoa(g.Rng.Intn(1<<30)))
+			g.Emit("go.obtained", ts)
+			g.Emit("cell.canon", ts)
 		}
-		g.Emit("cell.hash", ts)
-		g.Emit("cell.levels", ts)
-		g.Emit("cell.canon", ts)
 	}
+	// well-formed exotic DAGs over all five types and all masks
+	n = g.Scale(1500, 30000)
+	for i := 0; i < n; i++ {
+		t := g.RandExoticTable(g.Pick(2, 4, 8, 16, 40))
+		if !h.WFExotic(t) {
+			panic("generator produced a table violating WFExotic: " + h.TableString(t))
+		}
+		emitTable(g, t, "class_exotic_dag")
+		ts := h.TableString(t)
+		if specCost(t) <= 2500 {
+			g.Emit("spec.levels", ts)
+			g.Count("spec_direct")
+		}
+		if i%4 == 0 {
+			g.Emit("go.cached", ts, strconv.Itoa(g.Rng.Intn(1<<30)))
+			g.Emit("go.reads", ts, strconv.Itoa(g.Rng.Intn(1<<30)))
+			g.Emit("go.obtained", ts)
+		}
+	}
+	// every bit length 0..1023 (all numbers of trailing bits at every length), as leaf and with children
+	for bl := 0; bl <= 1023; bl++ {
+		leaf := h.Row{BitLen: bl, Data: g.RandData(bl)}
+		t := []h.Row{leaf}
+		if bl%3 == 1 {
+			t = []h.Row{{BitLen: bl, Data: g.RandData(bl), Refs: []int{1, 1}}, {BitLen: (bl * 7) % 1024, Data: g.RandData((bl * 7) % 1024)}}
+		}
+		g.Count(fmt.Sprintf("bitlen_mod8_%d", bl%8))
+		emitTable(g, t, "class_bitlen")
+		if bl%16 < 8 {
+			g.Emit("go.obtained", h.TableString(t))
+		}
+	}
+	// deep chains around the depth limit
+	for _, d := range []int{1022, 1023, 1024, 1025, 1026, 1100} {
+		emitTable(g, h.ChainTable(d, h.Row{BitLen: 3, Data: []byte{0xa0}}), "class_chain")
+	}
+	// pruned branch with a stored depth near the limit under a chain / directly under a merkle proof
+	for _, sd := range []int{0, 1, 1000, 1022, 1023, 1024, 1025, 65535} {
+		for _, up := range []int{0, 1, 2, 1023 - minI(sd, 1023), 1024 - minI(sd, 1024), 1025 - minI(sd, 1025)} {
+			if up < 0 {
+				continue
+			}
+			data := append([]byte{1, 1}, g.Bytes(32)...)
+			data = append(data, byte(sd>>8), byte(sd))
+			pr := h.Row{Ty: 1, Mask: 1, BitLen: len(data) * 8, Data: data}
+			ch := h.ChainTable(up, pr)
+			emitTable(g, ch, "class_chain_pruned")
+			// merkle proof on top (mask 0): asks the chain at level 1, where the pruned branch has depth 0
+			sh := h.NewSpecHasher(ch)
+			d0 := sh.Depth(0, 0)
+			mp := append([]byte{3}, sh.Hash(0, 0)...)
+			mp = append(mp, byte(d0>>8), byte(d0))
+			t := append([]h.Row{{Ty: 3, Mask: 0, BitLen: len(mp) * 8, Data: mp, Refs: []int{1}}}, shift(ch, 1)...)
+			emitTable(g, t, "class_chain_pruned_merkle")
+		}
+	}
+	// NewCellWithBits(ReadBits n)
+	nrb := g.Scale(600, 6000)
+	for i := 0; i < nrb; i++ {
+		bl := g.RandBitLen(0)
+		skip := 0
+		if bl > 0 {
+			skip = g.Pick(0, 0, 8*g.Rng.Intn(bl/8+1), g.Rng.Intn(bl+1))
+		}
+		if skip > bl {
+			skip = bl
+		}
+		nn := 0
+		if bl-skip > 0 {
+			nn = g.Rng.Intn(bl - skip + 1)
+		}
+		g.Count(fmt.Sprintf("readbits_skipmod8_%d_nmod8_%d", minI(skip%8, 1), minI(nn%8, 1)))
+		g.Emit("go.readbits", h.Hex(g.RandData(bl)), strconv.Itoa(bl), strconv.Itoa(skip), strconv.Itoa(nn))
+	}
+	genTestdata(g)
+}
+
+func minI(a, b int) int {
+	if a < b {
+		return a
+	}
+	return b
+}
+
+func shift(t []h.Row, by int) []h.Row {
+	out := make([]h.Row, len(t))
+	for i, r := range t {
+		refs := make([]int, len(r.Refs))
+		for j, c := range r.Refs {
+			refs[j] = c + by
+		}
+		r.Refs = refs
+		out[i] = r
+	}
+	return out
 }
